@@ -45,6 +45,7 @@ class Cur:
         self.step_of_level = {}
         self.est = {}
         self.restart_req = {}
+        self.sent = {}
         self.pending_flag = {}
 
     def v(self, kind, **detail):
@@ -183,6 +184,10 @@ class ObservingController(controller_nonMPI):
     def restart_block(self, active_slots, time, u0):
         cur = CUR
         if cur is not None:
+            if 'recv' in cur.cfg['checks']:
+                for rec in cur.sent.values():
+                    self._check_unconsumed(cur, rec, 'end of block')
+            cur.sent = {}
             cur.block += 1
             cur.macro = 0
             cur.snap = {}
@@ -191,9 +196,34 @@ class ObservingController(controller_nonMPI):
                 raise Horizon(f'more than {cur.cfg["max_blocks"]} blocks')
         return super().restart_block(active_slots, time, u0)
 
+    def _check_unconsumed(self, cur, rec, why):
+        if rec is not None and rec['consumed'] == 0 and rec['listening']:
+            cur.v('transfer_never_consumed', sender=rec['slot'], level=rec['level'], tag=rec['tag'], stage=rec['stage'], noticed=why)
+
+    def send_full(self, S, level=None, add_to_stats=False):
+        cur = CUR
+        super().send_full(S, level=level, add_to_stats=add_to_stats)
+        if cur is not None and 'recv' in cur.cfg['checks'] and not S.status.last:
+            # bookkeeping for "every forward transfer is consumed": a transfer provided for a successor that is still
+            # listening (not finished, predecessor not known to be finished) must be received exactly once before the
+            # next transfer on that level replaces it
+            key = (S.status.slot, level)
+            self._check_unconsumed(cur, cur.sent.get(key), 'replaced by the next transfer on this level')
+            succ = [T for T in self.MS if T.status.slot == S.status.slot + 1 and T.status.slot in cur.active]
+            listening = bool(succ) and not succ[0].status.prev_done and not succ[0].status.done
+            cur.sent[key] = {'slot': S.status.slot, 'level': level, 'tag': S.levels[level].tag, 'stage': S.status.stage, 'consumed': 0, 'listening': listening}
+
     def recv_full(self, S, level=None, add_to_stats=False):
         cur = CUR
         will = not S.status.prev_done and not S.status.first
+        if cur is not None and will and 'recv' in cur.cfg['checks']:
+            rec = cur.sent.get((S.prev.status.slot, level))
+            if rec is None:
+                cur.v('receive_without_transfer', slot=S.status.slot, level=level, stage=S.status.stage)
+            else:
+                rec['consumed'] += 1
+                if rec['consumed'] > 1:
+                    cur.v('transfer_consumed_twice', sender=rec['slot'], level=level, tag=rec['tag'], sent_in=rec['stage'], received_again_in=S.status.stage)
         if cur is not None and will and 'recv' in cur.cfg['checks']:
             src = S.prev.levels[level]
             want = (level, S.status.iter, S.prev.status.slot)
@@ -354,7 +384,11 @@ def build(cfg):
         import vf.env.adaptive  # noqa: F401  (registers the scripted controllers)
     if cfg.get('adaptive') is not None:
         level_params['restol'] = -1.0
-        description['convergence_controllers'][resolve('ScriptedAdaptivity')] = {'e_tol': 1.0, **cfg['adaptive']}
+        if cfg.get('adaptive_family') == 'polynomial':
+            # restart_at_maxiter off: with the fixed-sweep harness "converged" means "budget used up"
+            description['convergence_controllers'][resolve('ScriptedAdaptivityPolynomial')] = {'e_tol': 1.0, 'restart_at_maxiter': False, **cfg['adaptive']}
+        else:
+            description['convergence_controllers'][resolve('ScriptedAdaptivity')] = {'e_tol': 1.0, **cfg['adaptive']}
     if cfg.get('restarting') is not None:
         from pySDC.implementations.convergence_controller_classes.basic_restarting import BasicRestartingNonMPI
 
@@ -613,7 +647,8 @@ class BlockRun:
                         v = stats[k]
                         print('   stat', k.type, 't=%r' % k.time, 'proc', k.process, 'iter', k.iter, 'nr', k.num_restarts, 'val', v if not hasattr(v, 'tobytes') else '<arr>')
         niters = tuple((a['block'], a['slot'], a.get('iter_at_post')) for a in attempts)
-        return Outcome(cur.viol, cur.states, (outcome, niters), extra=cur.extra if hasattr(cur, 'extra') else None)
+        self.last_cur = cur
+        return Outcome(cur.viol, cur.states, (outcome, niters), extra=cur.extra if hasattr(cur, "extra") else None)
 
     def second_leg(self, cur, ctrl, uend):
         """A second run() on the same controller, continued from the value and time the first one reached; the same
@@ -629,6 +664,10 @@ class BlockRun:
         t0 = last['time'] + last['post']['dt']
         cfg['t0'] = t0
         cfg['Tend'] = t0 + cfg['second_run']
+        import math
+
+        # the horizon counts blocks over both runs; adaptive configurations bring their own (large) horizon
+        cfg['max_blocks'] = max(cfg['max_blocks'], cur.block + int(math.ceil(cfg['second_run'] / (cfg['P'] * cfg['dt']))) + 1)
         cur2 = Cur(cur.ctx, cfg)
         cur2.block = cur.block
         cur2.is_second_leg = True
@@ -659,6 +698,11 @@ class BlockRun:
             CUR = None
         cur2.stats, cur2.uend, cur2.outcome0 = stats2, u2, outcome
         cur2.attempts = split_attempts(cur2.log)
+        if outcome == ('ok',):
+            if 'grammar' in cfg['checks']:
+                self.check_grammar(cur2, cur2.attempts)
+            if 'model' in cfg['checks']:
+                self.check_model(cur2, cur2.attempts)
         for fn in cfg.get('post_checks', ()):
             mod, _, name = fn.partition(':')
             getattr(importlib.import_module(mod), name)(cur2)
